@@ -196,3 +196,5 @@ def check(ctx, rep):
     C11.twins(ctx, rep, 'C07e')
     C16.overlapped_rule(ctx, rep, 'C07f')
     effects(ctx, rep, 'C07g')
+    from .common import memo_rule
+    memo_rule(ctx, rep, 'C07h', ('peptacular.digestion', 'peptacular.spans'))
